@@ -43,6 +43,7 @@ pub fn lattice_oracle(which: Which) -> impl Fn(&LatticeItem, &mut Stats) -> Resu
   move |c: &LatticeItem, st: &mut Stats| {
     let (name, d) = subdomains(c.leaves, c.variant);
     let (states, transitions) = explore_lattice(&d, c.first, which, st)?;
+    st.model(states, transitions, 1);
     st.class_n(&format!("states:{}-leaf", c.leaves), states);
     st.class_n(&format!("transitions:{}-leaf", c.leaves), transitions);
     st.class(&format!("subdomain={name}"));
@@ -93,6 +94,7 @@ pub fn pair_oracle(which: Which) -> impl Fn(&PairItem, &mut Stats) -> Result<(),
         check_derivability(&t, &orig, st)?;
       }
       st.nontrivial(&(c.a, b));
+      st.model(1, 1, 1);
       if full {
         st.class("pair-with-full-sweep");
       }
@@ -186,7 +188,7 @@ pub fn history_oracle(which: Which) -> impl Fn(&History, &mut Stats) -> Result<(
     let mut order: Vec<u8> = Vec::new();
     let mut prev: u8 = 0;
     let mut steps = 0usize;
-    let mut do_puncture = |t: &mut Tracked, x: u8, order: &mut Vec<u8>, steps: &mut usize, st: &mut Stats| -> Result<(), String> {
+    let do_puncture = |t: &mut Tracked, x: u8, order: &mut Vec<u8>, steps: &mut usize, st: &mut Stats| -> Result<(), String> {
       *steps += 1;
       let scope: Vec<u8> = if *steps % 16 == 0 {
         all.clone()
@@ -299,6 +301,7 @@ pub fn history_oracle(which: Which) -> impl Fn(&History, &mut Stats) -> Result<(
     if order.len() >= 2 {
       st.nontrivial(&order);
     }
+    st.model(order.len() as u64 + 1, steps as u64, 1);
     st.class(match order.len() {
       0..=1 => "punctures<=1",
       2..=15 => "punctures=2-15",
